@@ -70,12 +70,14 @@ theorem body_buf_zero (cl : Int) (max : Option Nat) (r : Rec) :
 def Req.fresh (cfg : Cfg) (clHeader teHeader : Option Str) (input : Rec) : Req :=
   { cfg := cfg, clHeader := clHeader, teHeader := teHeader, input := input }
 
-/-- `Request.body` of a Content-Length request (header = decimal spelling of `n`, no chunked
-transfer coding): exactly the first `n` bytes of the stream, the original stream read no further
+/-- `Request.body` of a Content-Length request (header = decimal spelling of `n`, of at most
+`sys.get_int_max_str_digits()` digits — `int()` refuses a longer one like a non-numeric text: 500,
+outside the property's "request body" — no chunked transfer coding): exactly the first `n` bytes of the stream, the original stream read no further
 than `n`, whatever the fragmentation; afterwards the buffered copy is cached. -/
 theorem request_body_exact (cfg : Cfg) (n : Nat) (te : Option Str) (input : Rec)
     (hte : isChunked te = false) (hb : 0 < cfg.memfile)
-    (hmax : overMax cfg.maxBody (min n input.st.data.length) = false) :
+    (hmax : overMax cfg.maxBody (min n input.st.data.length) = false)
+    (hlim : (natStr n).length ≤ Ombott.Gen.intMaxStrDigits) :
     ((Req.fresh cfg (some (natStr n)) te input).body).1 = .ok (bodyOf cfg.memfile (input.st.data.take n)) ∧
     ((Req.fresh cfg (some (natStr n)) te input).body).2.cache =
       some (bodyOf cfg.memfile (input.st.data.take n), 0) ∧
@@ -85,7 +87,7 @@ theorem request_body_exact (cfg : Cfg) (n : Nat) (te : Option Str) (input : Rec)
       cases h : natStr n with
       | nil => exact absurd h (natStr_ne_nil n)
       | cons _ _ => rfl
-    simp [contentLength, hne, pyInt_natStr]
+    simp [contentLength, hne, pyIntLim_natStr n hlim]
   have hex := body_exact cfg.memfile (n : Int) cfg.maxBody input hb (by simpa using hmax)
   have hpos := (body_no_overread cfg.memfile (n : Int) cfg.maxBody input).2
   simp only [Int.toNat_natCast] at hex hpos
@@ -236,7 +238,8 @@ the next `request.body.read()` returns exactly the first Content-Length bytes of
 reads it no further than Content-Length, and never returns the old buffered body. -/
 theorem replaced_stream_exact (q : Req) (r : Rec) (n : Nat)
     (hcl : q.clHeader = some (natStr n)) (hte : isChunked q.teHeader = false) (hb : 0 < q.cfg.memfile)
-    (hmax : overMax q.cfg.maxBody (min n r.st.data.length) = false) :
+    (hmax : overMax q.cfg.maxBody (min n r.st.data.length) = false)
+    (hlim : (natStr n).length ≤ Ombott.Gen.intMaxStrDigits) :
     (((q.access (.replaceInput r)).2).access (.bodyRead none)).1 = .ok (r.st.data.take n) ∧
     (((q.access (.replaceInput r)).2).access (.bodyRead none)).2.input.pos ≤ r.pos + n ∧
     ∀ e ∈ (((q.access (.replaceInput r)).2).access (.bodyRead none)).2.input.log,
@@ -246,7 +249,7 @@ theorem replaced_stream_exact (q : Req) (r : Rec) (n : Nat)
       cases h : natStr n with
       | nil => exact absurd h (natStr_ne_nil n)
       | cons _ _ => rfl
-    simp [contentLength, hne, pyInt_natStr]
+    simp [contentLength, hne, pyIntLim_natStr n hlim]
   have hex := body_exact q.cfg.memfile (n : Int) q.cfg.maxBody r hb (by simpa using hmax)
   have hno := body_no_overread q.cfg.memfile (n : Int) q.cfg.maxBody r
   simp only [Int.toNat_natCast] at hex hno
@@ -258,6 +261,12 @@ theorem replaced_stream_exact (q : Req) (r : Rec) (n : Nat)
   exact ⟨trivial, hno.2, hno.1⟩
 
 section NonVacuity
+/-- `request_body_exact`, `replaced_stream_exact`: a Content-Length text `int()` converts (hypothesis `hlim`);
+beyond the limit the model, like the code, raises `ValueError` (a 500, like a non-numeric text) -/
+example : (natStr 3).length ≤ Ombott.Gen.intMaxStrDigits ∧
+    (match contentLength (some (List.replicate 4301 '1')) with | .error .valueError => true | _ => false) = true := by
+  decide +kernel
+
 /-- `body_exact`, `request_body_exact`: a 5-byte stream delivered 1,2,… bytes at a time, Content-Length 3, buffer 2 -/
 example : (0 : Nat) < 2 ∧ overMax none (min (3 : Int).toNat ([1, 2, 3, 4, 5] : Bytes).length) = false := by decide
 example : isChunked (some "identity".toList) = false := by decide
